@@ -209,20 +209,27 @@ func inter(a, b []string) []string {
 // outEnv: is environment e of the case a browser the target stands for, and with which
 // features is the OUTPUT evaluated in it?  The environment must understand every modelled
 // feature the target has (restricted to the input's features, the rest is added), and a
-// browser that understands nesting understands :is() (nesting is defined through it).
+// browser that understands nesting understands :is(), :where() and complex :not().
 func outEnv(c *Case, e Env, tg target) ([]string, bool) {
 	if !subset(inter(tg.feats, c.Feats), e.Feats) {
 		return nil, false
 	}
 	f := union(e.Feats, tg.feats)
-	if e.has("nesting") && !e.has("is") {
-		if subset([]string{"is"}, c.Feats) {
-			return nil, false
+	if e.has("nesting") {
+		for _, x := range impliedByNesting {
+			if !e.has(x) {
+				if subset([]string{x}, c.Feats) {
+					return nil, false
+				}
+				f = union(f, []string{x})
+			}
 		}
-		f = union(f, []string{"is"})
 	}
 	return f, true
 }
+
+// every browser that understands nesting understands the level-4 selectors it is defined with
+var impliedByNesting = []string{"is", "where", "not-list"}
 
 func (v *Vocab) nodeConds(c *Case, e Env) map[string]bool {
 	m := map[string]bool{}
@@ -503,7 +510,7 @@ func judge(r *core.Run, voc *Vocab, i int, w *work, results map[string]*nodeResu
 }
 
 func Run(r *core.Run) {
-	r.Assume("browsers consistent with the configured target: an environment is judged only if it understands every modelled syntax feature esbuild's compat table attributes to the target (target unset = all features), and :is() if it understands nesting; :where() and multi-argument :not() are free for every explicit target")
+	r.Assume("browsers consistent with the configured target: an environment is judged only if it understands every modelled syntax feature esbuild's compat table attributes to the target (target unset = all features), and :is()/:where()/complex :not() if it understands nesting; :where() and multi-argument :not() are free for every explicit target")
 	r.Assume("the document is the fixed 8-element tree of Css.tla; dynamic pseudo-classes match nothing; one origin (author)")
 	r.Assume("nested rules come after their parent's declarations (no declarations after a nested rule); layers are not nested inside style rules; feature-using selectors are not put inside :is()/:where()/:not()")
 	r.Assume("values: exact notations only (named/hex/rgb()/hsl() on the 8-bit grid, alpha in {0,0.2,0.4,0.6,0.8,1}, terminating decimals, calc() over one unit or a linear combination); lab/lch/oklab/oklch/color-mix accuracy is not examined")
@@ -512,58 +519,41 @@ func Run(r *core.Run) {
 		replay(r, st)
 		return
 	}
-	// phase A: the specification's own properties (model checking) + the vocabulary, side by side
-	var voc *Vocab
-	var mcCases []*Case
-	var mu sync.Mutex
-	var wg sync.WaitGroup
-	wg.Add(4)
-	go func() { defer wg.Done(); voc = loadVocab(r) }()
-	skipMC := os.Getenv("C12_SKIPMC") != "" // development only
-	go func() {
-		defer wg.Done()
-		if !skipMC {
-			runMC(r, pickS(r, "CssMC.nest.cfg", "CssMC.nest3.cfg"), 2, nil)
-		}
-	}()
-	go func() {
-		defer wg.Done()
-		if !skipMC {
-			runMC(r, "CssMC.short.cfg", 1, nil)
-		}
-	}()
-	go func() {
-		defer wg.Done()
-		if skipMC {
-			return
-		}
-		runMC(r, pickS(r, "CssMC.cascx.cfg", "CssMC.cascfull.cfg"), 4, func(c *Case) {
-			c.Family = "mc-casc"
-			mu.Lock()
-			mcCases = append(mcCases, c)
-			mu.Unlock()
-		})
-	}()
-	wg.Wait()
+	// phase A: the vocabulary of the specification
+	voc := loadVocab(r)
 	if voc == nil {
 		return
 	}
-	sort.Slice(mcCases, func(i, j int) bool { return mcCases[i].Name < mcCases[j].Name })
-	r.Set("mc_family_sheets", len(mcCases))
-	// phase B: seeded sheets over the whole vocabulary, winners by TLC
+	// phase B, side by side: the specification's own properties on the bounded-exhaustive families
+	// (model checking; the casc family is exported as cases) and the seeded sheets interpreted by CssGen
+	var mcCases []*Case
+	var mu sync.Mutex
+	var wg sync.WaitGroup
+	skipMC := os.Getenv("C12_SKIPMC") != "" // development only
+	if !skipMC {
+		wg.Add(1)
+		go func() {
+			defer wg.Done()
+			runMC(r, pickS(r, "CssMC.quick.cfg", "CssMC.thorough.cfg"), 4, func(c *Case) {
+				c.Family = "mc-casc"
+				mu.Lock()
+				mcCases = append(mcCases, c)
+				mu.Unlock()
+			})
+		}()
+	}
 	g := &gen{voc: voc, rng: rand.New(rand.NewSource(r.Seed))}
-	nSheets := r.Pick(1600, 40000)
+	nSheets := r.Pick(320, 12000)
 	if v := os.Getenv("C12_N"); v != "" { // development only
 		fmt.Sscan(v, &nSheets)
 	}
-	sheets := g.Sheets(nSheets, 5)
-	byID := map[string]genInput{}
-	for _, s := range sheets {
-		byID[s.ID] = s
-	}
+	sheets := g.Sheets(nSheets, r.Pick(4, 5))
 	t0 := time.Now()
-	got := runGen(r, sheets, r.Pick(1, 2), r.Pick(8, 4))
+	got := runGen(r, sheets, 1, 4)
 	r.Logf("CssGen: %d sheets -> %d cases in %.1fs", len(sheets), len(got), time.Since(t0).Seconds())
+	wg.Wait()
+	sort.Slice(mcCases, func(i, j int) bool { return mcCases[i].Name < mcCases[j].Name })
+	r.Set("mc_family_sheets", len(mcCases))
 	var cases []*Case
 	for _, s := range sheets {
 		c := got[s.ID]
@@ -580,11 +570,11 @@ func Run(r *core.Run) {
 		c.Family = strings.SplitN(s.ID, "-", 2)[0]
 		cases = append(cases, c)
 	}
-	if !r.Thorough() && len(mcCases) > 600 {
+	if !r.Thorough() && len(mcCases) > 300 {
 		// a seeded slice of the enumerated family
 		rng := rand.New(rand.NewSource(r.Seed + 7))
 		rng.Shuffle(len(mcCases), func(i, j int) { mcCases[i], mcCases[j] = mcCases[j], mcCases[i] })
-		mcCases = mcCases[:600]
+		mcCases = mcCases[:300]
 	}
 	cases = append(cases, mcCases...)
 	t0 = time.Now()
